@@ -33,6 +33,7 @@ def _load(prop: str):
 def _run_shard(prop, tier, seed, shard, nshards, budget, state):
     """Executed in a forked worker. Returns a JSON-able dict."""
     t0 = time.monotonic()
+    ctxmod.preload()  # no-op after the fork (done in the parent); all imports happen outside any watchdog timer
     mod = _load(prop)
     ctx = ctxmod.Ctx(
         prop=prop,
@@ -151,8 +152,10 @@ def main(argv):
     seed = int(os.environ.get("VERIF_SEED", "1") or "1")
     t0 = time.monotonic()
 
+    replay_path = os.path.abspath(argv[2]) if mode == "--replay" and len(argv) > 2 else None  # before the chdir below
+    ctxmod.preload()
     if mode == "--replay":
-        path = argv[2]
+        path = replay_path
         with open(path) as fh:
             doc = json.load(fh)
         spec = doc["spec"] if "spec" in doc else doc
